@@ -13,13 +13,13 @@ def evaluate : String :=
     " Runs)))) (return v11)) _) (:= (v21) ((lit targetInfo (kv Doc (call (. (. v0 target) Doc))) (kv Dependencies v7) (kv Data (. v4 Data)) (kv Runs (. v4 Runs))))) (= ((. v0 changed)) (v20)) (if _ v20 (block (= ((. v21 Data)) (v19)) (if _ (call IsTarget v3) (block (++ (. v21 Runs))) _)) _) (= ((. v0 data)) ((call (. v21 stamp)))) (call verifPoint \"target.record.success\" (call (. v3 String))) (= (v11) ((call (. v2 saveTargetInfo) v3 v21))) (if _ (!= v11 nil) (block (call (. (. v2 events) TargetFailed) v3 v11) (return v11)) _) (call (. (. v2 events) TargetSucceeded) v3 v20) (return nil))"]
 
 def fnUpToDate : String :=
-  "(block (if _ (!= v2 nil) (block (return false \"\" nil (call (. fmt Errorf) \"computing function environment: %w\" v2))) _) (if _ (. v0 always) (block (= ((. (. v0 targetInfo) Rerun)) (true)) (return true \"\" nil nil)) _) (:= (v3 v4 v5 v2) ((call (. v0 diffEnv)))) (if _ (|| (!= v2 nil) (u! v3)) (block (return false v4 v5 v2)) _) (range _ v6 (. v0 gens) (block (if (= (_ v2) ((call (. os Stat) v6))) (!= v2 nil) (block (if _ (call (. os IsNotExist) v2) (block (return false v4 nil nil)) _) (return false \"\" nil (call (. fmt Errorf) \"checking generated files: %w\" v2))) _))) (return true \"\" nil nil))"
+  "(block (if _ (!= v3 nil) (block (return false \"\" nil (call (. fmt Errorf) \"computing function environment: %w\" v3))) _) (if _ (. v0 always) (block (= ((. (. v0 targetInfo) Rerun)) (true)) (return true \"\" nil nil)) _) (:= (v4 v5 v6 v3) ((call (. v0 diffEnv)))) (if _ (|| (!= v3 nil) (u! v4)) (block (return false v5 v6 v3)) _) (range _ v7 (. v0 gens) (block (if (= (_ v3) ((call (. os Stat) v7))) (!= v3 nil) (block (if _ (call (. os IsNotExist) v3) (block (return false v5 nil nil)) _) (return false \"\" nil (call (. fmt Errorf) \"checking generated files: %w\" v3))) _))) (return true \"\" nil nil))"
 
 def fnLoad : String :=
   "(block (:= (v1 v2) ((call (. (. v0 proj) loadTargetInfo) (. v0 label)))) (if _ (!= v2 nil) (block (return (call (. fmt Errorf) \"loading prior function environment: %w\" v2))) _) (= ((. v0 targetInfo)) (v1)) (if _ (. v0 always) (block (= ((. (. v0 targetInfo) Rerun)) (true))) _) (if (= (v2) ((call (. (. v0 proj) saveTargetInfo) (. v0 label) v1))) (!= v2 nil) (block (return (call (. fmt Errorf) \"refreshing target info: %w\" v2))) _) (if _ (== (call len (. v1 Data)) 0) (block) (block (if _ (!= v2 nil) (block (return (call (. fmt Errorf) \"loading prior function environment: %w\" v2))) _))) (return nil))"
 
 def fnEvaluate : String :=
-  "(block (= (_ v3) ((call (. starlark Call) (call (. v0 newThread)) (. v0 function) v4 nil))) (if _ (!= v3 nil) (block (return \"\" false v3)) _) (if (:= (v3) ((call (. (call (. pickle NewEncoder) v8 (call (. pickle PicklerFunc) envPickler)) Encode) (. v0 function)))) (!= v3 nil) (block (return \"\" false v3)) _) (return (call (. v7 String)) true nil))"
+  "(block (= (_ v3) ((call (. starlark Call) (call (. v0 newThread)) (. v0 function) v4 nil))) (if _ (!= v3 nil) (block (return \"\" false v3)) _) (if (:= (v3) ((call (. (call (. pickle NewEncoder) v8 (call newEnvPickler)) Encode) (. v0 function)))) (!= v3 nil) (block (return \"\" false v3)) _) (= ((. v0 oldEnv) (. v0 oldData)) ((. v0 newEnv) (call (. v7 String)))) (return (. v0 oldData) true nil))"
 
 def srcUpToDate : String :=
   "(block (:= (v1 v2) ((call fileSum (. v0 path)))) (if _ (&& (!= v2 nil) (u! (call (. os IsNotExist) v2))) (block (return false \"\" nil v2)) _) (= ((. v0 sum)) (v1)) (if _ (== (. v0 oldSum) (. v0 sum)) (block (return true \"\" nil nil)) _) (return false \"file contents changed\" nil nil))"
@@ -47,8 +47,8 @@ def targetInfoPath : String :=
 
 def gc : String :=
   String.join [
-    "(block (:= (v1) ((lit (map string (struct))))) (:= (v2) ((func (block (for _ _ _ (block (= ((index v1 v3)) ((lit (struct)))) (:= (v4) ((call (. filepath Dir) v3))) (if _ (|| (== v4 (. v0 root)) (== v4 v3)) (block (break)) _) (= (v3) (v4)))))))) (call v2 (call (. filepath Join) (. v0 work) \"index.json\")) (call v2 (call (. filepath Join) (. v0 work) \"temp\")) (range _ v5 (. v0 targets) (block (call v2 (call (. v0 targetInfoPath) (call (. (. v5 target) Label)))))) (return (call (. filepath WalkDir) (. v0 work) (func (block (if _ (call (. os IsNotExist) v8) (block (return (. fs SkipDir))) _) (if _ (!= v8 nil) (block (return v8)) _) (if (:= (_ v9) ((index v1 v6))) (u! v9) (block (:= (v8) ((call (. os RemoveAll) v6))) (if _ (&& (!= v8 nil) (u! (call (. os IsNotExist) v8))) (block (return v8)) _))",
-    " _) (return nil))))))"]
+    "(block (if _ (. v0 indexOnly) (block (if (:= (v1) ((call (. v0 Reload)))) (!= v1 nil) (block (return v1)) _)) _) (:= (v2) ((lit (map string (struct))))) (:= (v3) ((func (block (for _ _ _ (block (= ((index v2 v4)) ((lit (struct)))) (:= (v5) ((call (. filepath Dir) v4))) (if _ (|| (== v5 (. v0 root)) (== v5 v4)) (block (break)) _) (= (v4) (v5)))))))) (call v3 (call (. filepath Join) (. v0 work) \"index.json\")) (call v3 (call (. filepath Join) (. v0 work) \"temp\")) (range _ v6 (. v0 targets) (block (call v3 (call (. v0 targetInfoPath) (call (. (. v6 target) Label)))))) (return (call (. filepath WalkDir) (. v0 work) (func (block (if _ (call (. os IsNotExist) v1) (block (return (. fs SkipDir))) _) (if _ (!= v1 nil) (block (return v1)) _) (if (:= (_ v9) ((index v2 v7))) (u! v9) (block (:= (v1) ((c",
+    "all (. os RemoveAll) v7))) (if _ (&& (!= v1 nil) (u! (call (. os IsNotExist) v1))) (block (return v1)) _)) _) (return nil))))))"]
 
 def link : String :=
   "(block (range _ v1 (. v0 targets) (block (range _ v2 (call (. (. v1 target) generates)) (block (= (v2) ((slice v2 (+ (call len (. v0 root)) 1) _ _))) (:= (v3 v4) ((call sourceLabel \"//\" v2))) (if _ (!= v4 nil) (block (return v4)) _) (:= (v5 v6) ((index (. v0 targets) (call (. v3 String))))) (if _ (u! v6) (block (continue)) _) (:= (v7) ((assert (. v5 target) (* sourceFile)))) (if _ (!= (. v7 generator) nil) (block (return (call (. fmt Errorf) \"multiple generators for %v: %v, %v\" v3 (call (. (. v1 target) Label)) (. v7 generator)))) _) (= ((. v7 generator)) ((call (. (. v1 target) Label)))))))) (return nil))"
